@@ -108,8 +108,8 @@ Proof. exact below_mh_prob. Qed.
    that takes y back to x, so a symmetric increment law gives a symmetric proposal *)
 Theorem C01_reflect_proposal_reversible : forall lo w x t : Q,
   (0 < w)%Q -> (lo <= x)%Q -> (x <= lo + w)%Q ->
-  let y := reflect lo w (x + t)%Q in
-  exists t', ((t' == t)%Q \/ (t' == - t)%Q) /\ (reflect lo w (y + t') == x)%Q.
+  let y := Reflect.reflect lo w (x + t)%Q in
+  exists t', ((t' == t)%Q \/ (t' == - t)%Q) /\ (Reflect.reflect lo w (y + t') == x)%Q.
 Proof. exact reflect_proposal_reversible. Qed.
 
 Theorem C01_abs_proposal_reversible : forall x t : Q, (0 <= x)%Q ->
